@@ -32,8 +32,15 @@ impl Outcome {
     }
 }
 
+/// Panics of the code under test are caught and judged by the checks; panics of the harness
+/// itself (outside an execution) must stay loud.
 pub fn silence_panics() {
-    std::panic::set_hook(Box::new(|_| {}));
+    std::panic::set_hook(Box::new(|info| {
+        let in_execution = EXEC.with(|e| e.try_borrow().map(|e| e.active).unwrap_or(true));
+        if !in_execution {
+            eprintln!("HARNESS PANIC (machinery error, not a verdict): {info}");
+        }
+    }));
 }
 
 pub fn execute(entry: &Entry, src: Src, doc: &Doc, script: &Script) -> Outcome {
